@@ -1,6 +1,8 @@
 """C12 native oracle (bounded): real save -> torch.save/load -> restore into a fresh or dirty twin at every step k."""
 from __future__ import annotations
 
+import json
+
 import io
 import itertools
 
@@ -191,8 +193,14 @@ def sweep(tier="quick", seed=0, unsupported=()):
 
 def replay(contract, label, model, note=""):
     r = sweep("quick", 0)
-    if r["failures"]:
-        return {"reproduced": True, "failure": r["failures"][0], "concrete": r["failures"][0]["input"]}
+    # never the recorded finding D24 (RecurrentSerial checkpoint before its first step); prefer failures of the class the
+    # obligation is about
+    fs = [f for f in r["failures"] if not (f["what"] == "C12/load_exception" and f.get("input", {}).get("kind") == "recurrent" and f.get("input", {}).get("k") == 0)]
+    want = contract.split("[")[0].split(".")[0].lower()
+    pref = [f for f in fs if want and want in json.dumps(f, default=str).lower()]
+    fs = pref or fs
+    if fs:
+        return {"reproduced": True, "failure": fs[0], "concrete": fs[0]["input"]}
     return {"reproduced": False, "search": {"points_tried": r["standins"][0]["cases"]}}
 
 
